@@ -95,3 +95,18 @@ Proof.
                      (conj (fun b r s' => set_treeflatten_refines s b r s' W) (fun r s' => get_treeflatten_refines s r s' W)))).
 Qed.
 Print Assumptions C12_transient_state_accessors_as_in_source.
+
+(* the flatten bracket of _MetaPyTree._check, AS REGENERATED FROM THE SOURCE (gen/StorageSrc.v, model/SL.v): whatever
+   jtu.tree_flatten and the leaf predicate do (`ext` arbitrary), they run with the flag on and the flag is off afterwards,
+   on normal completion and on every exception *)
+From JT Require Import proofs.SLWalkFacts.
+Theorem C12_flatten_bracket_as_in_source : forall ext obj s,
+  wf_cells s ->
+  exists r s', run_ext ext walk_src "flatten_bracket" [obj] s = Some (r, s') /\
+    let s0 := with_flatv s (SVBool true) in
+    abs_store s0 = with_flat (abs_store s) true /\
+    abs_store s' = with_flat (abs_store (snd (ext "tree_flatten" [obj] s0))) false /\
+    ps_flat (abs_store s') = false /\
+    (forall x, fst (ext "tree_flatten" [obj] s0) = SRExn x -> r = SRExn x).
+Proof. exact flatten_bracket_as_in_source. Qed.
+Print Assumptions C12_flatten_bracket_as_in_source.
